@@ -71,13 +71,15 @@ fn full_value_bytes() -> Vec<u8> {
     d.to_bytes().unwrap()
 }
 
-fn instance_param(port: u32, weight: f32, enabled: bool) -> InstanceRegisterParam {
+fn instance_param(port: u32, weight: f32, enabled: bool) -> InstanceRegisterParam { instance_param_at(port, weight, enabled, 1_700_000_000_000) }
+
+fn instance_param_at(port: u32, weight: f32, enabled: bool, stamp: i64) -> InstanceRegisterParam {
     let mut md = HashMap::new();
     md.insert("zone".to_owned(), format!("z{}", port));
     InstanceRegisterParam {
         ip: s("10.1.1.1"), port, weight, enabled, healthy: true, ephemeral: false, metadata: Arc::new(md),
         namespace_id: s("public"), group_name: s("DEFAULT_GROUP"), service_name: s("svc"), cluster_name: Some("DEFAULT".to_owned()),
-        app_name: Some("app".to_owned()), last_modified_millis: 1_700_000_000_000,
+        app_name: Some("app".to_owned()), last_modified_millis: stamp,
     }
 }
 
@@ -116,6 +118,19 @@ fn request(i: usize) -> ClientRequest {
         _ => ClientRequest::McpReq { req: McpManagerRaftReq::RemoveServer(1) },
     }
 }
+
+/// the requests whose fields carry the ORIGINATING node's clock, stamped at the moment the request is made
+fn request_at(i: usize, stamp: i64) -> ClientRequest {
+    match i {
+        15 => ClientRequest::NamingReq { req: NamingRaftReq::RegisterInstance { param: instance_param_at(8080, 2.0, true, stamp) } },
+        16 => ClientRequest::NamingReq { req: NamingRaftReq::UpdateInstance { param: instance_param_at(8080, 0.5, false, stamp) } },
+        0 => ClientRequest::ConfigSet { key: K1.to_owned(), value: s("v1"), config_type: None, desc: None, history_id: 1, history_table_id: None, op_time: stamp, op_user: None },
+        1 => ClientRequest::ConfigSet { key: K1.to_owned(), value: s("v2"), config_type: Some(s("json")), desc: Some(s("second")), history_id: 2, history_table_id: Some(12), op_time: stamp, op_user: Some(s("alice")) },
+        _ => request(i),
+    }
+}
+
+fn now_ms() -> i64 { std::time::SystemTime::now().duration_since(std::time::UNIX_EPOCH).unwrap().as_millis() as i64 }
 
 fn extra_request(i: usize) -> ClientRequest {
     // the index-manager variants: applied once per run (they write a file), not inside the enumeration
@@ -239,6 +254,31 @@ fn vx_bounded_c07_paths() {
             if or != ol && failures.len() < 12 {
                 failures.push(format!("VX-BOUNDED-FAIL SEQ {} replay differs from leader:\n   leader {}\n   replay {}", seq_name(seq), ol, or));
             }
+        }
+        // ---- the same log applied LATER: requests are stamped with the clock of the moment they are made and applied at once on the
+        //      leader and the follower (2 ms apart, as live traffic is); the replay node applies the stored log 12 ms after the last
+        //      entry, as a restart does.  Nothing a component stores may depend on WHEN the entry is applied.
+        let timed = [15usize, 16, 17, 0, 1, 3];
+        let mut tseqs: Vec<Vec<usize>> = vec![];
+        for a in timed { for b in timed { tseqs.push(vec![a, b]); for c in timed { tseqs.push(vec![a, b, c]); } } }
+        for seq in tseqs.iter() {
+            let l = new_set(index[0].clone()).await;
+            let f = new_set(index[1].clone()).await;
+            let r = new_set(index[2].clone()).await;
+            let mut stored: Vec<ClientRequest> = vec![];
+            for &i in seq.iter() {
+                let req = request_at(i, now_ms());
+                stored.push(req.clone());
+                let _ = l.h.apply_log_to_state_machine(req.clone(), &l.index).await;
+                let _ = f.h.do_send_log(req, &f.index);
+                tokio::time::sleep(std::time::Duration::from_millis(2)).await;
+            }
+            tokio::time::sleep(std::time::Duration::from_millis(12)).await;
+            for req in stored { let _ = r.h.load_log(req, &r.index).await; }
+            let (ol, of, or) = (observe(&l).await, observe(&f).await, observe(&r).await);
+            checked += 1;
+            if of != ol && failures.len() < 12 { failures.push(format!("VX-BOUNDED-FAIL LATER {} follower differs from leader:\n   leader   {}\n   follower {}", seq_name(seq), ol, of)); }
+            if or != ol && failures.len() < 12 { failures.push(format!("VX-BOUNDED-FAIL LATER {} a node that replays the log later differs from the leader:\n   leader {}\n   replay {}", seq_name(seq), ol, or)); }
         }
         // the index-manager variants, once
         let l = new_set(index[0].clone()).await;
